@@ -18,11 +18,11 @@ import (
 func init() {
 	Register(&Rule{
 		ID: "C45", Section: "5 C45",
-		Technique: "table agreement (extension ids written by marshal vs. switch labels of unmarshal; message type byte vs. readHandshake's dispatch), length-prefix agreement on go/ssa (copied field vs. stored len(), header length vs. allocation), difference-bound lower bounds on len() from dominating comparisons for constant-index reads in unmarshal, window agreement of adjacent byte stores / byte joins of big-endian fields",
+		Technique: "table agreement (extension ids written by marshal vs. switch labels of unmarshal; message type byte vs. readHandshake's dispatch), length-prefix agreement on go/ssa (copied field vs. stored len(), header length vs. allocation), difference-bound lower bounds on len() from dominating comparisons for constant-index reads in unmarshal, window agreement of adjacent byte stores / byte joins of big-endian fields, interval (upper-bound) analysis of integers assembled from message bytes against the width of their type",
 		Meta: core.Meta{
 			Level:       "other",
-			Explanation: "Decides: (a) for clientHelloMsg and serverHelloMsg every extension id that marshal writes is a case label of the extension switch of the same type's unmarshal (resolved through the constant objects / values); (b) the type byte each marshal stores at offset 0 is dispatched by Conn.readHandshake to the same message type; (c) in every marshal (12 handshake messages + sessionState) each variable-length receiver field copied into the output has a byte derived from len() of that same field stored into the output, and the three header length bytes are derived from the same value as the allocation size minus 4; (d) in every unmarshal each read data[k] / re-slice data[k:] / data[:k] with constant k on a byte slice is dominated by comparisons that bound len() of that slice (through re-slicing, phis and integer lower bounds) to at least k+1 resp. k; variable-bound slicings are proven when a dominating comparison bounds the length by the same expression, the others are only counted (note); (e) big-endian fields: in every marshal each stored byte of the form byte((q*m)>>s), s>0 (a non-lowest byte of a multi-byte field: header lengths, vector lengths, versions, suite ids, element lengths) is followed, at the next index of the same buffer value, by the next lower 8-bit window byte((q*m)>>(s-8)) of the same quantity q (scalings by shifts/constant factors normalised, so len>>7 / len<<1 is the 16-bit window pair of 2*len), and in every unmarshal each integer assembled by |/+ of shifted message bytes takes consecutive indices of one slice with shifts 8(n-1)…8,0 in index order. Not covered: value equality of marshal/unmarshal round trips beyond the extension-table clause, variable-index reads inside element loops (no general bounds prover: the compiler's own prover leaves 221 checks open in this file), integer truncation of over-long fields in length prefixes.",
-			RuleText:    "obligations = each extension id written by a hello marshal; each marshal's type byte; each copied variable-length field of each marshal; each marshal's header length; each constant-index read or constant-bound re-slice in each unmarshal; each right-shifted byte store of each marshal; each byte join of each unmarshal",
+			Explanation: "Decides: (a) for clientHelloMsg and serverHelloMsg every extension id that marshal writes is a case label of the extension switch of the same type's unmarshal (resolved through the constant objects / values); (b) the type byte each marshal stores at offset 0 is dispatched by Conn.readHandshake to the same message type; (c) in every marshal (12 handshake messages + sessionState) each variable-length receiver field copied into the output has a byte derived from len() of that same field stored into the output, and the three header length bytes are derived from the same value as the allocation size minus 4; (d) in every unmarshal each read data[k] / re-slice data[k:] / data[:k] with constant k on a byte slice is dominated by comparisons that bound len() of that slice (through re-slicing, phis and integer lower bounds) to at least k+1 resp. k; variable-bound slicings are proven when a dominating comparison bounds the length by the same expression, the others are only counted (note); (e) big-endian fields: in every marshal each stored byte of the form byte((q*m)>>s), s>0 (a non-lowest byte of a multi-byte field: header lengths, vector lengths, versions, suite ids, element lengths) is followed, at the next index of the same buffer value, by the next lower 8-bit window byte((q*m)>>(s-8)) of the same quantity q (scalings by shifts/constant factors normalised, so len>>7 / len<<1 is the 16-bit window pair of 2*len), and in every unmarshal each integer assembled by |/+ of shifted message bytes takes consecutive indices of one slice with shifts 8(n-1)…8,0 in index order.; (f) rule int-wrap: in every unmarshal each +, * and << whose operands are computed from message bytes and have known upper bounds (byte loads, shifts/ors/sums of them, constants, len() taken as < 2^31, narrowed by dominating comparisons), and each narrowing conversion of such a value, cannot leave the range of its type — a 32-bit length plus a header size that wraps around satisfies the very comparison with len() that (d) accepts as its bound. Not covered: value equality of marshal/unmarshal round trips beyond the extension-table clause, variable-index reads inside element loops (no general bounds prover: the compiler's own prover leaves 221 checks open in this file), integer truncation of over-long fields in length prefixes.",
+			RuleText:    "obligations = each extension id written by a hello marshal; each marshal's type byte; each copied variable-length field of each marshal; each marshal's header length; each constant-index read or constant-bound re-slice in each unmarshal; each right-shifted byte store of each marshal; each byte join of each unmarshal; per unmarshal the arithmetic on wire integers (no wrap-around)",
 		},
 		Run: runC45,
 		Mutants: []Mutant{
@@ -39,6 +39,10 @@ func init() {
 			{Name: "certificate-octets-middle-byte-repeated", File: "bfe_tls/handshake_messages.go", Old: "	x[5] = uint8(certificateOctets >> 8)\n", New: "	x[5] = uint8(certificateOctets >> 16)\n", Expect: "byte-window|certificateMsg.marshal"},
 			{Name: "ticket-length-read-with-short-shift", File: "bfe_tls/handshake_messages.go", Old: "	ticketLen := int(data[8])<<8 + int(data[9])\n", New: "	ticketLen := int(data[8])<<7 + int(data[9])\n", Expect: "byte-join|newSessionTicketMsg.unmarshal"},
 			{Name: "ca-list-length-bytes-swapped", File: "bfe_tls/handshake_messages.go", Old: "	casLength := uint16(data[0])<<8 | uint16(data[1])\n", New: "	casLength := uint16(data[1])<<8 | uint16(data[0])\n", Expect: "byte-join|certificateRequestMsg.unmarshal"},
+			{Name: "cert-length-32bit-sum-wraps", File: "bfe_tls/handshake_messages.go", Old: "		certLen := uint32(d[0])<<16 | uint32(d[1])<<8 | uint32(d[2])\n		if uint32(len(d)) < 3+certLen {", New: "		certLen := uint32(d[0])<<24 | uint32(d[1])<<16 | uint32(d[2])<<8\n		if uint32(len(d)) < 3+certLen {", Expect: "int-wrap|certificateMsg.unmarshal"},
+			{Name: "session-state-cert-length-uint32-sum", File: "bfe_tls/ticket.go", Old: "		certLen := int(data[0])<<24 | int(data[1])<<16 | int(data[2])<<8 | int(data[3])\n		data = data[4:]\n		if certLen < 0 {\n			return false\n		}\n		if len(data) < certLen {\n			return false\n		}\n		s.certificates[i] = data[:certLen]\n		data = data[certLen:]\n", New: "		certLen := uint32(data[0])<<24 | uint32(data[1])<<16 | uint32(data[2])<<8 | uint32(data[3])\n		if uint32(len(data)) < 4+certLen {\n			return false\n		}\n		s.certificates[i] = data[4 : 4+certLen]\n		data = data[4+certLen:]\n", Expect: "int-wrap|sessionState.unmarshal"},
+			{Name: "ticket-length-in-byte-arithmetic", File: "bfe_tls/handshake_messages.go", Old: "	ticketLen := int(data[8])<<8 + int(data[9])\n", New: "	ticketLen := int(data[8]<<8 + data[9])\n", Expect: "int-wrap|newSessionTicketMsg.unmarshal"},
+			{Name: "silent-status-length-sum-hoisted", Silent: true, File: "bfe_tls/handshake_messages.go", Old: "		if uint32(len(data)) != 4+4+respLen {\n", New: "		total := respLen + 8\n		if uint32(len(data)) != total {\n"},
 			{Name: "silent-suite-vector-length-precomputed", Silent: true, File: "bfe_tls/handshake_messages.go", Old: "	y[0] = uint8(len(m.cipherSuites) >> 7)\n	y[1] = uint8(len(m.cipherSuites) << 1)\n", New: "	suiteBytes := 2 * len(m.cipherSuites)\n	y[0] = uint8(suiteBytes >> 8)\n	y[1] = uint8(suiteBytes)\n"},
 			{Name: "silent-guard-rewritten", Silent: true, File: "bfe_tls/handshake_messages.go", Old: "func (m *clientKeyExchangeMsg) unmarshal(data []byte) bool {\n	m.raw = data\n	if len(data) < 4 {\n		return false\n	}", New: "func (m *clientKeyExchangeMsg) unmarshal(data []byte) bool {\n	m.raw = data\n	if n := len(data); !(n >= 4) {\n		return false\n	}"},
 		},
@@ -52,7 +56,7 @@ func runC45(c *core.Ctx) {
 		c.Missing(tlsPkg)
 		return
 	}
-	proven, windows := 0, 0
+	proven, windows, arith := 0, 0, 0
 	c45ExtTable(c)
 	c45TypeByte(c)
 	for _, m := range append(append([]string{}, c45Messages...), "sessionState") {
@@ -65,6 +69,7 @@ func runC45(c *core.Ctx) {
 		}
 		if fn := tlsFunc(c, m+".unmarshal"); fn != nil {
 			proven += c45Bounds(c, m, fn)
+			arith += c45NoWrap(c, m, fn)
 			c45Joins(c, m+".unmarshal", fn)
 		}
 	}
@@ -73,6 +78,8 @@ func runC45(c *core.Ctx) {
 	c.Min("index-bound", 11)
 	c.Min("byte-window", 40)
 	c.Min("byte-join", 25)
+	c.Min("int-wrap", 8)
+	c.Check("int-wrap", "examined-total", token.NoPos, arith >= 40, fmt.Sprintf("only %d arithmetic operations on wire integers were examined over all unmarshal functions: the rule no longer sees the parsers' length arithmetic", arith))
 	c.Note("big-endian fields: %d high-byte stores checked against their successor byte in marshal functions", windows)
 	c.Check("index-bound", "proven-sites-total", token.NoPos, proven >= 120, fmt.Sprintf("only %d reads / re-slices were proven over all unmarshal functions; at least 120 were on the reference tree: the rule no longer sees the parsers' accesses", proven))
 }
